@@ -898,7 +898,11 @@ func cmdCheck(args []string) {
 	prop := fs.String("p", "", "property id")
 	tier := fs.String("tier", envOr("VERIF_TIER", "quick"), "quick|thorough")
 	only := fs.String("harness", "", "run just this harness (no evidence written)")
-	nw := fs.Int("workers", runtime.NumCPU(), "")
+	defWorkers := runtime.NumCPU()
+	if v, err := strconv.Atoi(os.Getenv("GOSYM_WORKERS")); err == nil && v > 0 {
+		defWorkers = v
+	}
+	nw := fs.Int("workers", defWorkers, "")
 	fs.Parse(args)
 	if *tier != "thorough" {
 		*tier = "quick"
